@@ -22,6 +22,9 @@ import (
 // access. The reference is an exact-rational ledger.
 type AccumEngine struct{}
 
+var posNames = []string{"p", "p1", "p12", "q3"}
+var accNames = []string{"acc", "acc1", "acc12"}
+
 func init() { simcore.Register(AccumEngine{}) }
 
 func (AccumEngine) Name() string    { return "accum" }
@@ -261,8 +264,9 @@ func (AccumEngine) Execute(run *simcore.Run) {
 	nDen := int(p.Cfg("denoms", 1))
 	base := NewBaseStore()
 	model := map[string]*refAcc{}
-	accName := func(i int64) string { return fmt.Sprintf("acc%d", int(i)%nAcc) }
-	posName := func(i int64) string { return fmt.Sprintf("p%d", i%4) }
+	// names that are prefixes of one another: position "p" vs "p1" vs "p12", accumulator "acc" vs "acc1" vs "acc12"
+	accName := func(i int64) string { return accNames[int(i)%nAcc] }
+	posName := func(i int64) string { return posNames[((i%4)+4)%4] }
 
 	var tx *accTx
 	begin := func(limit int, abort bool) {
@@ -342,7 +346,7 @@ func (AccumEngine) Execute(run *simcore.Run) {
 			// resolve the position argument relative to state: "new" prefers a free name,
 			// operations on positions prefer a live one (unknown names have their own ops)
 			var live, free []string
-			for _, n := range []string{"p0", "p1", "p2", "p3"} {
+			for _, n := range posNames {
 				if m.pos[n] != nil {
 					live = append(live, n)
 				} else {
@@ -787,7 +791,7 @@ func accumOracle(run *simcore.Run, view storetypes.KVStore, model map[string]*re
 			return
 		}
 		total := new(big.Rat)
-		for _, pn := range []string{"p0", "p1", "p2", "p3"} {
+		for _, pn := range posNames {
 			pos := m.pos[pn]
 			if pos == nil {
 				if obj.HasPosition(pn) {
@@ -825,7 +829,7 @@ func accumOracle(run *simcore.Run, view storetypes.KVStore, model map[string]*re
 				return
 			}
 			// claim resets the claimer and nobody else
-			for _, other := range []string{"p0", "p1", "p2", "p3"} {
+			for _, other := range posNames {
 				if m.pos[other] == nil {
 					continue
 				}
